@@ -113,7 +113,7 @@ def run(prog, rep, tier, cfg):
     # ---- removal only after expiry
     rem_claims = []
     rem_allocs = []
-    for f in prog.fns.values():
+    for f in prog.bodies():
         if f.crate != VR or f.kind in ('promoted', 'const') or NEUTRAL.search(f.id):
             continue
         for c in f.calls:
